@@ -397,8 +397,9 @@ pub const AFTER_VALUES: [u32; 20] = [
     1, 2, 144, 499_999_999, 500_000_000, 500_000_001, 0x7fff_ffff, 16, 17, 127, 128, 255, 256, 32_767, 32_768, 65_536, 8_388_607, 8_388_608, 16_777_216,
     1_700_000_000,
 ];
-pub const OLDER_VALUES: [u32; 22] = [
-    // bits 16..=21 have no meaning under BIP-68/112: 1 block, 3 x 512 s and 10 blocks in disguise
+pub const OLDER_VALUES: [u32; 23] = [
+    // bits 16..=21 have no meaning under BIP-68/112: 0 blocks, 1 block, 3 x 512 s and 10 blocks in disguise
+    65_536,
     65_537,
     (1 << 22) | (1 << 17) | 3,
     (1 << 21) | 10,
